@@ -55,6 +55,12 @@ Definition retry_same_id (st : state) (c ws : N) : state :=
   set_store st (s_log st ++ [mk_frame st c 0 EContinuityCreated [ws]]) (s_side st) (s_next st) (s_index st)
             (s_fresh st + 1) (s_mu st).
 
+(* T1 (tools/gen/append_skeleton.py gen_create_callers): every function that calls create_continuity /
+   create_continuity_locked has exactly one call site and none inside a loop: one invocation creates at most once.  At least
+   the three public creating calls (ensure_default, branch, handoff) must have been found. *)
+Definition create_calls_ok (l : list (N * bool)) : bool :=
+  (3 <=? nlen l) && forallb (fun x => (fst x =? 1) && negb (snd x)) l.
+
 (* ---------- correspondence (harness/src/bin/c01/sidewrites.rs): a sequential history on one authority ---------- *)
 Inductive swcall :=
 | SwEnsure (save_ok : bool)                   (* ensure_default; false: index.json cannot be written during the call *)
